@@ -14,6 +14,8 @@
      quoteident-three-part      QuoteIdent(s, s, s) is not IDENT s . IDENT s . IDENT s   (s non-empty)
      needsquotes-inexact        IdentNeedsQuotes(s) = FALSE is not equivalent to "s bare is IDENT s"
      panic
+   A record of the rune sweep (Gen_c06s) has in addition  sweep = <<lo, hi>>, shape, obs.runlen and
+   obs.rest = << [inp, obs, sweep, runlen], ... >> : one entry per further run of the block.
      drift:*                    helpers / tokens differ from the design spec, property kept *)
 EXTENDS Quote, Json, CSV, IOUtils
 
@@ -30,9 +32,9 @@ KL(T) == [j \in 1..Len(T) |-> IF T[j][1] \in {"IDENT", "STRING"} THEN T[j] ELSE 
 \* coarse signature: the kind of the first token (every keyword token is "KEYWORD")
 FirstKind(T) == IF Len(T) = 0 THEN "none" ELSE IF \E p \in KeywordPairs : p[2] = T[1][1] THEN "KEYWORD" ELSE T[1][1]
 
-Verdicts(r) ==
-  LET o == r.obs inp == r.inp IN
-  IF Has(o, "panic") \/ Has(o, "harness_panic") THEN {V("panic", "quote")}
+Verdicts1(inp, o) ==
+  IF Has(o, "empty") THEN {}                 \* a block of surrogate code points: no string to judge
+  ELSE IF Has(o, "panic") \/ Has(o, "harness_panic") THEN {V("panic", "quote")}
   ELSE IF ~Expressible(inp) THEN {}          \* the first sentence of the property speaks about expressible strings only
   ELSE
   LET s == Concat(inp)
@@ -51,6 +53,17 @@ Verdicts(r) ==
               ELSE IF KL(o.qs_t) = KL(ScanAll(o.qs)) /\ KL(o.qi_t) = KL(ScanAll(o.qi)) /\ KL(o.bare_t) = KL(ScanAll(inp)) THEN {}
               ELSE {V("drift:tokens", "")})
   IN IF prop # {} THEN prop ELSE drift
+
+\* A rune-sweep record (Gen_c06s) carries one observation per maximal run of code points that
+\* behaved alike: the first run in the record itself, the others under obs.rest.  Each run is
+\* judged like a plain record; its verdicts name the first code point of the run.
+Runs(r) == <<[inp |-> r.inp, obs |-> r.obs] @@ (IF Has(r, "sweep") THEN [sweep |-> r.sweep] ELSE <<>>)>>
+           \o (IF Has(r.obs, "rest") THEN r.obs.rest ELSE <<>>)
+Verdicts(r) ==
+  IF ~Has(r, "inp") THEN (IF Has(r.obs, "empty") THEN {} ELSE {V("panic", "sweep")})
+  ELSE LET R == Runs(r) IN
+  UNION {{V(v.class, IF Has(R[j], "sweep") THEN v.sig \o " U+" \o ToString(R[j].sweep[1]) ELSE v.sig) : v \in Verdicts1(R[j].inp, R[j].obs)}
+         : j \in 1..Len(R)}
 
 \* non-trivial: the string needs an escape, or quotes as an identifier
 NonTrivial(r) == Has(r.obs, "need") /\ (r.obs.need \/ Len(r.obs.qs) > Len(r.inp) + 2)
